@@ -104,11 +104,21 @@ U_Chain(Dr, Dx, Dz, XK, ZB, XL) ==
         xs == U_Dec({U_Wrap(xk, z) : xk \in XK, z \in zs}, Dx) \cup U_Dec(XL, Dx)
     IN U_Dec({U_Map1(U_KA, x) : x \in xs}, Dr)
 
-\* focus universes (quick): one flag + metadata on all three levels
+\* focus universes: one flag + metadata on all three levels (thorough: as is;
+\* quick: fewer Z decorations, X a mapping or a list)
 U_FocusPr   == U_Chain(U_DPr, U_DPr, U_DPr, {"dict", "list"}, U_ZSmall, U_XLeafSmall)
 U_FocusDel  == U_Chain(U_DDel, U_DDel, U_DDel, {"dict", "list", "call"}, U_ZFull, U_XLeaf)
 U_FocusNew  == U_Chain(U_DNew, U_DNew, U_DNew, {"dict", "list", "call"}, U_ZFull, U_XLeaf)
-U_FocusSafe == U_Chain(U_DSafe, U_DSafe, U_DSafe, {"dict", "list", "call"}, U_ZFull, U_XLeaf)
+U_FocusSafe == U_Chain(U_DSafe, U_DSafe, U_DSafe, {"dict", "list", "call"}, U_ZFull \cup {U_Call("vmod.rec", <<>>)}, U_XLeaf \cup {U_Call("vmod.rec", <<>>)})
+
+U_DPrZ   == {U_D(p, "N", "N", "N", {}) : p \in U_PrVals} \cup {U_D(1, "N", "N", "N", U_Md)}
+U_DDelZ  == {U_D(PrNone, d, "N", "N", {}) : d \in U_Tri} \cup {U_D(PrNone, "T", "N", "N", U_Md)}
+U_DNewZ  == {U_D(PrNone, "N", a, "N", {}) : a \in U_Tri} \cup {U_D(PrNone, "N", "T", "N", U_Md)}
+U_DSafeZ == {U_D(PrNone, "N", "N", x, {}) : x \in U_Tri} \cup {U_D(PrNone, "N", "N", "T", U_Md)}
+U_QFocusPr   == U_Chain(U_DPr, U_DPr, U_DPrZ, {"dict", "list"}, {U_I("1"), U_Null, U_EMap}, {U_I("1"), U_Null})
+U_QFocusDel  == U_Chain(U_DDel, U_DDel, U_DDelZ, {"dict", "list"}, {U_I("1"), U_Null, U_EList, U_List(<<U_I("1")>>), U_EMap}, U_XLeaf)
+U_QFocusNew  == U_Chain(U_DNew, U_DNew, U_DNewZ, {"dict", "list"}, {U_I("1"), U_EMap, U_Map1(U_KA, U_I("1"))}, {U_I("1"), U_Null, U_EMap})
+U_QFocusSafe == U_Chain(U_DSafe, U_DSafe, U_DSafeZ, {"dict", "list"}, {U_I("1"), U_Call("vmod.rec", <<>>), U_EMap}, {U_I("1"), U_Null, U_Call("vmod.rec", <<>>)})
 
 \* node kinds at X (and, for containers, one decorated Z below)
 U_KindLeaves == {U_Kind("required", <<>>), U_XRef(<<U_KB>>), U_XRef(<<U_KA, IKey(0)>>), U_Prev(<<U_KB>>),
@@ -123,11 +133,15 @@ U_DKind == {U_None, U_D(PrNone, "N", "N", "N", U_Md), U_D(1, "N", "N", "N", {}),
             U_D(1, "T", "N", "N", {}), U_D(PrNone, "F", "F", "N", U_Md)}
 U_DZKind == {U_None, U_D(1, "N", "N", "N", {}), U_D(PrNone, "T", "N", "N", {}), U_D(PrNone, "F", "N", "N", {}),
              U_D(PrNone, "N", "F", "N", {}), U_D(PrNone, "N", "N", "F", {}), U_D(PrNone, "N", "N", "N", U_Md)}
-U_Kinds ==
-    LET zs == U_Dec({U_I("1"), U_Null, U_EList, U_Map1(U_KA, U_I("1"))}, U_DZKind)
+U_DKindC == {U_None, U_D(PrNone, "N", "N", "N", U_Md), U_D(1, "N", "N", "N", {}), U_D(PrNone, "F", "N", "N", {}), U_D(PrNone, "N", "F", "N", U_Md)}
+U_DKindP == {U_None, U_D(1, "N", "N", "N", U_Md), U_D(PrNone, "T", "N", "N", U_Md), U_D(PrNone, "N", "F", "N", U_Md), U_D(PrNone, "N", "N", "F", U_Md)}
+U_KindsOf(zb, dkc, dp) ==
+    LET zs == U_Dec(zb, U_DZKind)
         xs == U_Dec(U_KindLeaves, U_DKind)
-              \cup U_Dec({U_Wrap(xk, z) : xk \in {"call", "bind", "extend", "pathp"}, z \in zs}, U_DKind)
-    IN U_Dec({U_Map1(U_KA, x) : x \in xs}, U_DParents)
+              \cup U_Dec({U_Wrap(xk, z) : xk \in {"call", "bind", "extend", "pathp"}, z \in zs}, dkc)
+    IN U_Dec({U_Map1(U_KA, x) : x \in xs}, dp)
+U_Kinds  == U_KindsOf({U_I("1"), U_Null, U_EList, U_Map1(U_KA, U_I("1"))}, U_DKind, U_DParents)
+U_QKinds == U_KindsOf({U_I("1"), U_Null, U_EList}, U_DKindC, U_DKindP)
 
 \* siblings: what is written after a tagged node (the stack must be popped;
 \* a later string must still be quoted) - R {a: X, b: Y}
@@ -187,21 +201,16 @@ U_CtxSmall == {U_Map1(U_KA, w) : w \in {U_I("5"), U_Map1(U_KA, U_I("5")), U_Map1
                                        U_Map1(U_KA, U_Call("vmod.rec", <<>>))}}
                 \cup {U_Map1(U_KB, U_Prev(<<U_KA>>))}
 
-\* <<targets, contexts, small contexts>> as one sequence + ranges (Uni.tla)
-U_Pack(targets) ==
-    LET ts == SetToSeq(targets)
-        cs == SetToSeq(U_CtxDocs \ U_CtxSmall)
-        ss == SetToSeq(U_CtxSmall)
-    IN [docs |-> ts \o cs \o ss,
-        range |-> << <<1, Len(ts)>>, <<Len(ts) + 1, Len(ts) + Len(cs) + Len(ss)>>,
-                     <<Len(ts) + Len(cs) + 1, Len(ts) + Len(cs) + Len(ss)>> >>]
+U_CtxBig == U_CtxDocs \ U_CtxSmall
 
-U_Quick    == U_FocusPr \cup U_FocusDel \cup U_FocusNew \cup U_FocusSafe \cup U_Kinds \cup U_Siblings
-U_Thorough == U_Quick \cup U_AllXZ \cup U_Pairs3
+U_Quick    == U_QFocusPr \cup U_QFocusDel \cup U_QFocusNew \cup U_QFocusSafe \cup U_QKinds \cup U_Siblings
+U_Thorough == U_Quick \cup U_FocusPr \cup U_FocusDel \cup U_FocusNew \cup U_FocusSafe \cup U_Kinds \cup U_AllXZ \cup U_Pairs3
 \* narrow universes for the mutation cfgs
 U_MutDel   == U_Chain({U_None, U_D(PrNone, "T", "N", "N", U_Md)}, U_DDel, U_DDel, {"dict", "list"}, {U_I("1"), U_EList, U_List(<<U_I("1")>>)}, {U_EList, U_EMap})
-U_MutNew   == U_Chain({U_None}, U_DNew, U_DNew, {"dict"}, {U_I("1"), U_Map1(U_KA, U_I("1"))}, {U_I("1")})
-U_MutSafe  == U_Chain({U_None}, U_DSafe, U_DSafe, {"dict", "call"}, {U_I("1"), U_Call("vmod.rec", <<>>)}, {U_I("1"), U_Call("vmod.rec", <<>>)})
+U_MutNew   == U_Chain(U_DNew, U_DNew, U_DNewZ, {"dict", "list"}, {U_EMap, U_Map1(U_KA, U_I("1"))}, {U_I("1")})
+U_MutSafe  == U_Chain({U_None, U_D(PrNone, "N", "N", "F", U_Md)}, U_DSafe, U_DSafeZ, {"dict", "list"}, {U_I("1"), U_Call("vmod.rec", <<>>), U_EMap}, {U_I("1"), U_Call("vmod.rec", <<>>)})
 U_MutKinds == U_Dec({U_Map1(U_KA, x) : x \in U_Dec(U_KindLeaves \cup {U_Null, U_Apply(U_S("a\\b"), U_D(1, "N", "N", "N", {}))}, U_DKind)}, {U_None})
+\* three-stage histories in the quick tier
+U_Q3 == U_MutDel \cup U_MutNew
 
 =============================================================================
